@@ -40,6 +40,8 @@ instance : Monad (RM σ) where
 def fail (e : ErrClass) : RM σ α := fun _ => .err e
 /-- a `&self` getter returning `Result` -/
 def lift (o : Outcome α) : RM σ α := fun s => o.bind (fun a => .ok (a, s))
+/-- a `&self` getter returning `Result`, given as a function of the state -/
+def readR (g : σ → Outcome α) : RM σ α := fun s => (g s).bind (fun a => .ok (a, s))
 /-- a `&self` getter that cannot fail -/
 def read (f : σ → α) : RM σ α := fun s => .ok (f s, s)
 end RM
@@ -57,9 +59,22 @@ structure RStore (F σ : Type) where
   vals : σ → List Nat                       -- the value stack, `get_current_value` = head
   trace : σ → List HostCall                 -- ghost
   jumpTable : σ → Nat → Option Nat          -- get_from_jump_table
+  instruction : σ → Nat → Option (Instruction × Option Nat)   -- get_instruction
+  /-- ghost: the frame chain, newest first: return address and the caller's registers -/
+  frames : σ → List (Nat × List Nat)
   instrLen : σ → Nat                        -- get_instruction_len
   cursor : σ → Nat                          -- get_instruction_cursor
   dataLen : σ → Nat                         -- get_data_len
+  -- indexed getters (`&self`; the index is a `Data::Number`)
+  listLen : σ → Nat → Outcome Nat                              -- get_list_len
+  charLen : σ → Nat → Outcome Nat                              -- get_char_list_len
+  byteLen : σ → Nat → Outcome Nat                              -- get_byte_list_len
+  symLen : σ → Nat → Outcome Nat                               -- get_symbol_list_len
+  listItem : σ → Nat → Number F → Outcome (Option Nat)         -- get_list_item
+  charItem : σ → Nat → Number F → Outcome (Option Nat)         -- get_char_list_item
+  byteItem : σ → Nat → Number F → Outcome (Option Nat)         -- get_byte_list_item
+  symItem : σ → Nat → Number F → Outcome (Option (SymPart F))  -- get_symbol_list_item
+  listItemWithSymbol : σ → Nat → Nat → Outcome (Option Nat)    -- get_list_item_with_symbol
   -- adders
   addUnit : RM σ Nat
   addTrue : RM σ Nat
@@ -75,6 +90,12 @@ structure RStore (F σ : Type) where
   addSlice : Nat → Nat → RM σ Nat
   addPartial : Nat → Nat → RM σ Nat
   mergeToSymbolList : Nat → Nat → RM σ Nat
+  /-- ghost: the list under construction — the token `start_list` / `add_to_list` last returned and the items added
+  so far, in order -/
+  building : σ → Option (Nat × List Nat)
+  startList : Nat → RM σ Nat
+  addToList : Nat → Nat → RM σ Nat
+  endList : Nat → RM σ Nat
   -- stacks
   pushRegister : Nat → RM σ Unit
   popRegister : RM σ (Option Nat)
@@ -84,6 +105,7 @@ structure RStore (F σ : Type) where
   setCurrentValue : Nat → RM σ Bool
   pushFrame : Nat → RM σ Unit
   popFrame : RM σ (Option Nat)
+  setInstructionCursor : Nat → RM σ Unit
   -- host extension points
   deferOp : Instruction → Ty × Nat → Ty × Nat → RM σ Bool
   resolve : Nat → RM σ Bool
@@ -99,13 +121,25 @@ structure Keeps (S : RStore F σ) (s s' : σ) : Prop where
   jump : S.jumpTable s' = S.jumpTable s
   ilen : S.instrLen s' = S.instrLen s
   cur : S.cursor s' = S.cursor s
+  instr : S.instruction s' = S.instruction s
 
-/-- effect of a store operation that is not a host call: data kept, the two stacks as stated, no host call -/
+/-- effect of a store operation that is not a host call: data kept, the two stacks as stated, no host call, the
+frame chain untouched -/
 structure Eff (S : RStore F σ) (s s' : σ) (regs' vals' : List Nat) : Prop where
   keeps : Keeps S s s'
   regs : S.regs s' = regs'
   vals : S.vals s' = vals'
   trace : S.trace s' = S.trace s
+  frames : S.frames s' = S.frames s
+
+/-- effect of an operation that may change the frame chain (`push_frame`, `pop_frame`, entering or leaving an
+expression): data kept, stacks and frames as stated, no host call -/
+structure FEff (S : RStore F σ) (s s' : σ) (regs' vals' : List Nat) (frames' : List (Nat × List Nat)) : Prop where
+  keeps : Keeps S s s'
+  regs : S.regs s' = regs'
+  vals : S.vals s' = vals'
+  trace : S.trace s' = S.trace s
+  frames : S.frames s' = frames'
 
 /-- contract of an adder: succeeds, the new address denotes `v`, nothing else is disturbed -/
 def Adds (S : RStore F σ) (m : RM σ Nat) (s : σ) (v : Val F) : Prop :=
@@ -115,7 +149,28 @@ def Adds (S : RStore F σ) (m : RM σ Nat) (s : σ) (v : Val F) : Prop :=
 def Records (S : RStore F σ) (m : RM σ Bool) (c : HostCall) : Prop :=
   ∀ s b s', m s = .ok (b, s') → S.trace s' = c :: S.trace s
 
+/-- contract of an indexed getter pair (`len`, `item`) over the sequence `seq` the iterator getter yields:
+the length is the length; an integer index inside `0..len` yields that element. Outside (negative, too large,
+fractional) the data implementations differ and nothing is promised. -/
+def Indexes {β : Type} (len : Nat → Outcome Nat) (item : Nat → Number F → Outcome (Option β))
+    (seq : Nat → Option (List β)) : Prop :=
+  ∀ a xs, seq a = some xs → len a = .ok xs.length ∧ ∀ i, i < xs.length → item a (.int i) = .ok xs[i]?
+
+/-- `DataFactory::size_to_number`: `from as i32` -/
+def sizeToNumber (n : Nat) : Number F := .int (wrap n)
+
 structure StoreLaws (S : RStore F σ) : Prop where
+  /-- `get_range` answers only on a range -/
+  rangeTyped : ∀ s a p, (S.view s).range a = some p → (S.view s).typeOf a = some .range
+  listIdx : ∀ s, Indexes (S.listLen s) (S.listItem s) (S.view s).listItems
+  charIdx : ∀ s, Indexes (S.charLen s) (S.charItem s) (S.view s).chars
+  byteIdx : ∀ s, Indexes (S.byteLen s) (S.byteItem s) (S.view s).bytes
+  symIdx : ∀ s, Indexes (S.symLen s) (S.symItem s) (S.view s).symList
+  /-- `get_list_item_with_symbol`: the value of the first item that is a pair keyed by the symbol, if any -/
+  listSym : ∀ s a items vs sym, (S.view s).listItems a = some items → DecodesList (S.view s) items vs →
+    match Abs.lookupSym sym vs with
+    | some v => ∃ r, S.listItemWithSymbol s a sym = .ok (some r) ∧ Decodes (S.view s) r v
+    | none => S.listItemWithSymbol s a sym = .ok none
   addUnit : ∀ s, Adds S S.addUnit s .unit
   addTrue : ∀ s, Adds S S.addTrue s .tru
   addFalse : ∀ s, Adds S S.addFalse s .fls
@@ -137,6 +192,18 @@ structure StoreLaws (S : RStore F σ) : Prop where
   /-- `merge_to_symbol_list`: symbols, numbers and symbol lists merge (the handlers pass nothing else) -/
   mergeSome : ∀ l r vl vr v s, Decodes (S.view s) l vl → Decodes (S.view s) r vr →
     Abs.mergeSymList vl vr = some v → Adds S (S.mergeToSymbolList l r) s v
+  /-- `start_list(len)`: a fresh construction with no items; the token is what the data object chooses -/
+  startList : ∀ n s, ∃ t s', S.startList n s = .ok (t, s') ∧ Eff S s s' (S.regs s) (S.vals s) ∧
+    S.building s' = some (t, [])
+  /-- `add_to_list(token, item)`: the item is appended, a new token returned -/
+  addToList : ∀ t items a s, S.building s = some (t, items) →
+    ∃ t' s', S.addToList t a s = .ok (t', s') ∧ Eff S s s' (S.regs s) (S.vals s) ∧
+      S.building s' = some (t', items ++ [a])
+  /-- `end_list(token)`: the address of a list of exactly the added items, in the order they were added -/
+  endList : ∀ t items vs s, S.building s = some (t, items) → DecodesList (S.view s) items vs →
+    Adds S (S.endList t) s (.list vs)
+  /-- popping a register does not disturb a list under construction -/
+  popRegisterBuilding : ∀ s o s', S.popRegister s = .ok (o, s') → S.building s' = S.building s
   pushRegister : ∀ a s, ∃ s', S.pushRegister a s = .ok ((), s') ∧ Eff S s s' (a :: S.regs s) (S.vals s)
   popRegisterNil : ∀ s, S.regs s = [] → ∃ s', S.popRegister s = .ok (none, s') ∧ Eff S s s' [] (S.vals s)
   popRegisterCons : ∀ s a rest, S.regs s = a :: rest →
@@ -148,10 +215,19 @@ structure StoreLaws (S : RStore F σ) : Prop where
   setCurrentNil : ∀ r s, S.vals s = [] → ∃ s', S.setCurrentValue r s = .ok (false, s') ∧ Eff S s s' (S.regs s) []
   setCurrentCons : ∀ r s a rest, S.vals s = a :: rest →
     ∃ s', S.setCurrentValue r s = .ok (true, s') ∧ Eff S s s' (S.regs s) (r :: rest)
-  /-- `pop_frame` returns to the caller's registers (implementation defined); values and data are kept -/
-  popFrame : ∀ s, ∃ o s', S.popFrame s = .ok (o, s') ∧ Eff S s s' (S.regs s') (S.vals s)
-  pushFrame : ∀ j s, ∃ s', S.pushFrame j s = .ok ((), s') ∧ Keeps S s s' ∧ S.vals s' = S.vals s ∧
-    S.trace s' = S.trace s
+  /-- `push_frame(j)`: a frame returning to `j`, remembering the caller's registers; registers and values stay -/
+  pushFrame : ∀ j s, ∃ s', S.pushFrame j s = .ok ((), s') ∧
+    FEff S s s' (S.regs s) (S.vals s) ((j, S.regs s) :: S.frames s)
+  /-- `pop_frame` with no frame: `None`, nothing changes -/
+  popFrameNil : ∀ s, S.frames s = [] → ∃ s', S.popFrame s = .ok (none, s') ∧ Eff S s s' (S.regs s) (S.vals s)
+  /-- `pop_frame`: the return address; the registers are the caller's again -/
+  popFrameCons : ∀ s ret saved fs, S.frames s = (ret, saved) :: fs →
+    ∃ s', S.popFrame s = .ok (some ret, s') ∧ FEff S s s' saved (S.vals s) fs
+  /-- `set_instruction_cursor(n)` moves the cursor and nothing else -/
+  setCursor : ∀ n s, ∃ s', S.setInstructionCursor n s = .ok ((), s') ∧ S.cursor s' = n ∧
+    (∀ a v, Decodes (S.view s) a v → Decodes (S.view s') a v) ∧ S.jumpTable s' = S.jumpTable s ∧
+    S.instrLen s' = S.instrLen s ∧ S.instruction s' = S.instruction s ∧ S.dataLen s' = S.dataLen s ∧
+    S.regs s' = S.regs s ∧ S.vals s' = S.vals s ∧ S.trace s' = S.trace s ∧ S.frames s' = S.frames s
   deferOp : ∀ op l r, Records S (S.deferOp op l r) (.defer op l r)
   resolve : ∀ y, Records S (S.resolve y) (.resolve y)
   apply : ∀ e a, Records S (S.apply e a) (.apply e a)
@@ -173,6 +249,8 @@ def getRangeRaw (a : Nat) : RM σ (Nat × Nat) := fun s => RM.lift (fetch ((S.vi
 def getSlice (a : Nat) : RM σ (Nat × Nat) := fun s => RM.lift (fetch ((S.view s).slice a)) s
 def getPartial (a : Nat) : RM σ (Nat × Nat) := fun s => RM.lift (fetch ((S.view s).partial_ a)) s
 def getConcatenation (a : Nat) : RM σ (Nat × Nat) := fun s => RM.lift (fetch ((S.view s).concatenation a)) s
+/-- `get_symbol_list_iter(a, 0..MAX)`, collected -/
+def getSymbolListIter (a : Nat) : RM σ (List (SymPart F)) := fun s => RM.lift (fetch ((S.view s).symList a)) s
 /-- `get_from_jump_table` -/
 def getFromJumpTable (j : Nat) : RM σ (Option Nat) := RM.read (fun s => S.jumpTable s j)
 /-- `get_current_value` -/
